@@ -632,7 +632,7 @@ def check_C05(run, replay):
                 "infinite iff the budget is 0; plus the dynamic-range family (strategy exponents 50..1000 x budgets 1..1500 "
                 "x regret exponents down to -1000 x fallback weights on games with an infoset reached in the first "
                 "iteration only: the accumulators pass through the subnormal range) and the contention family (External, 2 / 3 / "
-                "16 threads, on the game whose opponent infoset is shared by all parallel tasks) and the constructor family "
+                "16 threads, on the game whose opponent infoset is shared by all parallel tasks), the unlimited family (budget u64::MAX with the threshold +inf: returns after one iteration) and the constructor family "
                 "(RegretParams::new over {-1,1,NaN,+-inf}^4 panics exactly as documented); distinct by lattice index; "
                 "every point is non-trivial")
     run.assumptions = ["|payoff| <= 1e6", "hang = no return within 30 s and, run again, within 120 s",
@@ -657,8 +657,12 @@ def check_C05(run, replay):
     res4 = tlc("MC_Lattice", env={"SLICE": run.seed % kstride, "OF": kstride, "NUMGAMES": 16, "FAMILY": "ctor"}, timeout=3000)
     run.add_tlc(res4)
     recs = recs + [(i + 300000000, v) for (i, v) in res4.out("OUT")]
+    ustride = 9 if run.tier == "quick" else 1
+    res5 = tlc("MC_Lattice", env={"SLICE": run.seed % ustride, "OF": ustride, "NUMGAMES": 16, "FAMILY": "unlimited"}, timeout=3000)
+    run.add_tlc(res5)
+    recs = recs + [(i + 400000000, v) for (i, v) in res5.out("OUT")]
     run.notes["points"] = {"lattice": len(res.out("OUT")), "range": len(res2.out("OUT")), "contention": len(res3.out("OUT")),
-                           "constructor": len(res4.out("OUT"))}
+                           "constructor": len(res4.out("OUT")), "unlimited": len(res5.out("OUT"))}
     exp_path = run.path("lattice.exp.ndjson")
     write_ndjson(exp_path, [{"id": i, "exp": dict(v, seed=run.seed)} for (i, v) in recs])
     out_path = run.path("lattice.res.ndjson")
